@@ -18,7 +18,7 @@ TOL_ROUTES = 1e-9
 TOL_NUM = 1e-6
 
 
-def make_harness(spec_name, spec_fn, T, third=False):
+def make_harness(spec_name, spec_fn, T, third=False, spec_fam=""):
     def h(ch):
         k = ch.choose("point", list(range(T.points)))
         case = spec_fn(ch, T.at(k))
@@ -35,7 +35,25 @@ def make_harness(spec_name, spec_fn, T, third=False):
         vals = [case.ops[n] for n in names]
         if any(onp.iscomplexobj(vals[i]) for i in which):
             raise Skip("complex operand: C09's subject")
-        if len(which) == 1:
+        cmode = "no"
+        if len(which) == 1 and spec_fam in ("U", "R") and onp.size(vals[which[0]]) <= 2 and case.name != "real_if_close":   # (piecewise in the imaginary part)
+            # the operand as a COMPLEX value built from a real vector v = [re, im] inside the differentiated function: second and third
+            # derivatives of the realification, at a generic complex point and at a point lying exactly on the real axis
+            cmode = ch.choose("complexified", ["no", "generic", "real-axis"])
+        if cmode != "no":
+            i = which[0]
+            re0 = onp.asarray(vals[i], dtype=float)
+            shp, nre = re0.shape, re0.size
+            im0 = (O.fill(shp, 13, 0.2, 0.6, T.seed) if cmode == "generic" else onp.zeros(shp)) * onp.ones(shp)
+            x = onp.concatenate([re0.reshape(-1), onp.asarray(im0, dtype=float).reshape(-1)])
+
+            def call(np_, vv):
+                zz = np_.reshape(vv[:nre], shp) + 1j * np_.reshape(vv[nre:], shp)
+                args = list(vals)
+                args[i] = zz
+                out_ = f(np_, *args)
+                return np_.concatenate([np_.reshape(np_.real(out_), (-1,)), np_.reshape(np_.imag(out_), (-1,))])
+        elif len(which) == 1:
             i = which[0]
             x = onp.asarray(vals[i], dtype=float)
 
@@ -72,7 +90,7 @@ def make_harness(spec_name, spec_fn, T, third=False):
                 m = int(onp.size(out0))
                 Wt = O.fill(onp.shape(out0), 3, 0.5, 1.5, T.seed)
                 phi = lambda xx: anp.sum(Wt * call(anp, xx))
-                res = dict(n=x.size)
+                res = dict(n=x.size, cmode=cmode)
                 n = x.size
                 basis = [onp.eye(n)[j].reshape(x.shape) for j in range(n)]
                 gfun = ag.grad(phi)
@@ -167,7 +185,7 @@ def make_harness(spec_name, spec_fn, T, third=False):
             return o
         n = res["n"]
         V = lambda mode, kind, got, want, extra=None: o["v"].append(
-            W.mk_violation(PROP, spec_name, ch, case, which, mode, kind, got, want, extra))
+            W.mk_violation(PROP, spec_name, ch, case, which, mode, kind, got, want, dict(extra or {}, complexified=res.get("cmode", "no"))))
         names = sorted(routes)
         bad_shape = [r for r in names if routes[r].shape != (n, n)]
         if bad_shape:
@@ -242,7 +260,7 @@ def _table():
 
         def factory(quick, seed, name=name, fn=fn, fam=fam):
             # third order along one direction: every family, both tiers
-            return make_harness(name, fn, Tier(quick, seed, reduced=quick) if quick else _thorough_tier(seed), third=True)
+            return make_harness(name, fn, Tier(quick, seed, reduced=quick) if quick else _thorough_tier(seed), third=True, spec_fam=fam)
 
         table["cat:" + name] = factory
     return table
